@@ -4,7 +4,7 @@
    The implementation's fused decode-and-coerce (IDLArgs::from_bytes_with_types / from_bytes, binary_parser::Header)
    is compared with it by the correspondence run; the theorems below are the meta-theory that makes it the right oracle. *)
 From Coq Require Import List NArith ZArith.
-From CandidV Require Import Consts model.Coerce model.De proofs.WireProofs proofs.CoerceProofs proofs.DeFast proofs.DeSpec.
+From CandidV Require Import Consts model.Coerce model.De proofs.WireProofs proofs.CoerceProofs proofs.DeFast proofs.DeSpec proofs.DeCoerce proofs.DeCoerceMain proofs.DeMessage.
 Open Scope N_scope.
 
 (* the value decoder inverts the spec's value encoding M at every type: for every well-typed value, any trailing input *)
@@ -54,3 +54,71 @@ Print Assumptions C02_decoder_is_M_inverse_at_the_wire_type.
 Print Assumptions C02_untyped_decoder_is_spec.
 Print Assumptions C02_coerce_welltyped.
 Print Assumptions C02_coerce_same_type.
+
+(* The decoder AS IT IS at a PROPER SUPERTYPE (DeCoerceMain.v): whenever M^-1 is defined on the input at the wire type, the
+   single-pass decoder -- with its fast paths, its merge of the two sorted field lists, the variant protocol, the reference
+   check and the back-tracking of opt -- returns exactly what the specification's coercion function returns on that value:
+   the coerced value, or the subtype-class failure that an enclosing opt turns into null.  [W] tells wire names from the
+   names of the expected types; [sides] says that each side mentions its own names only, record fields are in ascending
+   order, a table entry is never the primitive null and future types occur on the wire only (DeCoerce.v).
+   The decoder's fuel must exceed the coercion function's by the depth of the value: an expected opt around a non-opt wire
+   value costs the decoder a level of nesting that the value does not have. *)
+Theorem C02_decoder_is_coercion_after_M_inverse : forall E W, wf_env E = true -> sides W E ->
+  forall f g u lc e w bs v r c g0,
+  ty_closed E e = true -> ty_closed E w = true -> side W false e = true -> side W true w = true ->
+  dec_val g0 E w bs = Ok (v, r) -> (f + vdepth v < g)%nat ->
+  match coerce f E v w e with
+  | Ok v' => snd (de g E u HV lc e w bs nolim c) = Ok (v', r)
+  | Err ESub => snd (de g E u HV lc e w bs nolim c) = Err ESub
+  | _ => True
+  end.
+Proof. exact de_is_coerce. Qed.
+
+(* skipping a value (surplus fields and arguments, reserved, the fall-back of opt) consumes exactly what M^-1 consumes *)
+Theorem C02_skipping_is_M_inverse : forall g g0 E u h lc w bs v r c, wf_env E = true -> ty_closed E w = true ->
+  dec_val g0 E w bs = Ok (v, r) -> (vdepth v < g)%nat ->
+  exists c', de g E u h lc w w bs nolim c = (c', Ok (v, r)).
+Proof. exact skip_is_dec. Qed.
+
+(* whole messages, IDLArgs::from_bytes_with_types: whenever the message is well-formed at its wire types (header, M^-1 of
+   every argument, nothing left over), the decoder as it is returns what the coercion of the argument sequence returns --
+   the values, or an error when no coercion exists *)
+Theorem C02_typed_decoder_is_coercion : forall Ee lc te tes bs Ew tws vs W c,
+  spec_decode_untyped bs = Ok (Ew, tws, vs) ->
+  wf_env (Ew ++ Ee) = true -> sides W (Ew ++ Ee) ->
+  forallb (ty_closed (Ew ++ Ee)) (te :: tes) = true -> forallb (side W false) (te :: tes) = true ->
+  forallb (ty_closed (Ew ++ Ee)) tws = true -> forallb (side W true) tws = true ->
+  match coerce_args (decode_fuel (Ew ++ Ee) bs) (Ew ++ Ee) vs tws (te :: tes) with
+  | Ok out => exists c', de_message max_type_table_len Ee lc (te :: tes) bs nolim c = (c', Ok out)
+  | Err ESub => exists c' e, de_message max_type_table_len Ee lc (te :: tes) bs nolim c = (c', Err e)
+  | _ => True
+  end.
+Proof. exact de_message_is_coercion. Qed.
+
+Theorem C02_typed_decoder_is_spec : forall Ee lc te tes bs Ew tws vs0 vs W c,
+  spec_decode_untyped bs = Ok (Ew, tws, vs0) ->
+  wf_env (Ew ++ Ee) = true -> sides W (Ew ++ Ee) ->
+  forallb (ty_closed (Ew ++ Ee)) (te :: tes) = true -> forallb (side W false) (te :: tes) = true ->
+  forallb (ty_closed (Ew ++ Ee)) tws = true -> forallb (side W true) tws = true ->
+  spec_decode Ee (te :: tes) bs = Ok vs ->
+  exists c', de_message max_type_table_len Ee lc (te :: tes) bs nolim c = (c', Ok vs).
+Proof. exact de_message_is_spec. Qed.
+
+(* non-vacuity: record {0 : nat} = {5} through a table entry, read at opt record {0 : int; 1 : opt text} declared in an
+   expected environment: every hypothesis of the message theorem holds (the side conditions through their boolean test) *)
+Definition C02_ex_msg : list N := [68;73;68;76; 1; 108; 1; 0; 125; 1; 0; 5].
+Definition C02_ex_Ee : env := [([82], TRec [(0, TPrim PInt); (1, TOpt (TPrim PText))])].
+Example C02_ex_typed_hyps :
+  exists Ew tws vs0,
+    spec_decode_untyped C02_ex_msg = Ok (Ew, tws, vs0) /\ Ew <> [] /\
+    wf_env (Ew ++ C02_ex_Ee) = true /\ sidesb (wire_names Ew) (Ew ++ C02_ex_Ee) = true /\
+    forallb (ty_closed (Ew ++ C02_ex_Ee)) [TOpt (TVar [82])] = true /\ forallb (side (wire_names Ew) false) [TOpt (TVar [82])] = true /\
+    forallb (ty_closed (Ew ++ C02_ex_Ee)) tws = true /\ forallb (side (wire_names Ew) true) tws = true /\
+    spec_decode C02_ex_Ee [TOpt (TVar [82])] C02_ex_msg = Ok [VOpt (Some (VRec [(0, VInt 5); (1, VOpt None)]))] /\
+    snd (de_message max_type_table_len C02_ex_Ee no_names [TOpt (TVar [82])] C02_ex_msg nolim (0, 0)) = Ok [VOpt (Some (VRec [(0, VInt 5); (1, VOpt None)]))].
+Proof. eexists. eexists. eexists. vm_compute. repeat split; try reflexivity. discriminate. Qed.
+
+Print Assumptions C02_decoder_is_coercion_after_M_inverse.
+Print Assumptions C02_skipping_is_M_inverse.
+Print Assumptions C02_typed_decoder_is_coercion.
+Print Assumptions C02_typed_decoder_is_spec.
